@@ -69,6 +69,9 @@ func genSync(o *hx.Out, r *hx.Rng, n int, long int) {
 		{N: 4, Prefix: 12, Own: 1, Peer: 3, Full: true, Recent: true, HCB: "honest", Corrupt: -1, ErrAfter: -1, NonValidator: true},
 		// an honest peer serving ONE block per response: the sync issues a request per block at the downloader's own pace
 		{N: 4, Prefix: 2, Own: 1, Peer: 34, HCB: "honest", Corrupt: -1, ErrAfter: -1, Batch: 1},
+		// the SERVING node reverted more blocks than its block cache holds before serving; its blocks carry transactions
+		{N: 4, Prefix: 3, Own: 2, Peer: 5, HCB: "honest", Corrupt: -1, ErrAfter: -1, PeerCache: 2, PeerRevert: 4, WithTxs: true},
+		{N: 4, Prefix: 2, Own: 1, Peer: 14, HCB: "honest", Corrupt: -1, ErrAfter: -1, PeerCache: 1, PeerRevert: 3, WithTxs: true},
 		// recent finality, far apart: nothing is done (neither mechanism applies)
 		{N: 4, Prefix: 12, Own: 0, Peer: 10, Full: true, Recent: true, HCB: "honest", Corrupt: -1, ErrAfter: -1},
 		// failed block sync, then an honest fast sync
@@ -117,6 +120,10 @@ func genSync(o *hx.Out, r *hx.Rng, n int, long int) {
 			s.Stall = []string{"", "", "empty", "repeat"}[r.Intn(4)]
 		}
 		s.NonValidator = r.Intn(12) == 0
+		if !s.Full && s.N == 4 && r.Intn(6) == 0 { // (with 2 validators both forge and finality would forbid the revert)
+			s.PeerCache, s.WithTxs = 1+r.Intn(3), true
+			s.PeerRevert = s.PeerCache + r.Intn(3)
+		}
 		if r.Intn(8) == 0 { // three nodes, block sync: the sender shares more of our fork than the best peer
 			s.Full, s.Own = false, 2+r.Intn(8)
 			s.Sender, s.SenderShare = true, 1+r.Intn(s.Own)
